@@ -1,5 +1,6 @@
 //! Emission of generated packages: Cargo.toml, locale files, src/main.rs.
 
+use std::collections::BTreeMap;
 use std::fmt::Write as _;
 use std::path::Path;
 
@@ -124,11 +125,45 @@ fn count_type(kind: &CountKind, probes: &[Num]) -> String {
     }
 }
 
-fn args_string_backend(k: &KeyPlan, a: &Assign) -> String {
+/// "crossed" argument expressions: the caller has local variables named after the variables of the key
+/// which hold the value of the *next* variable, and every argument is written as the local that holds
+/// its value (`a = b, b = a` for two variables). The supplied values are the same as in the plain form;
+/// what differs is that every argument expression mentions the name of another argument.
+/// Returns (the `let` statements, variable -> expression); None when fewer than two plain variables
+/// have identifier names or all of them have the same value.
+fn crossed_locals(a: &Assign) -> Option<(String, BTreeMap<String, String>)> {
+    let names: Vec<(&String, &String)> = a.vars.iter().filter(|(v, _)| !v.contains('-')).collect();
+    let m = names.len();
+    if m < 2 || names.iter().all(|(_, x)| *x == names[0].1) {
+        return None;
+    }
+    let mut lets = String::new();
+    let mut exprs = BTreeMap::new();
+    for i in 0..m {
+        // local n_i holds x_(i+1); argument n_(i+1) is written as the local n_i
+        let _ = write!(lets, "let {} = {}; ", names[i].0, rust_str(names[(i + 1) % m].1));
+        exprs.insert(names[(i + 1) % m].0.clone(), names[i].0.clone());
+    }
+    Some((lets, exprs))
+}
+
+fn plain_var_args(a: &Assign, crossed: Option<&BTreeMap<String, String>>) -> String {
     let mut s = String::new();
     for (v, val) in &a.vars {
-        let _ = write!(s, ", {} = {}", v, rust_str(val));
+        match crossed.and_then(|c| c.get(v)) {
+            Some(e) => {
+                let _ = write!(s, ", {} = {}", v, e);
+            }
+            None => {
+                let _ = write!(s, ", {} = {}", v, rust_str(val));
+            }
+        }
     }
+    s
+}
+
+fn args_string_backend(k: &KeyPlan, a: &Assign, crossed: Option<&BTreeMap<String, String>>) -> String {
+    let mut s = plain_var_args(a, crossed);
     for (v, val) in &a.fvars {
         let _ = write!(s, ", {} = {}", v, val.rust());
     }
@@ -144,11 +179,8 @@ fn args_string_backend(k: &KeyPlan, a: &Assign) -> String {
     s
 }
 
-fn args_view_backend(k: &KeyPlan, a: &Assign) -> String {
-    let mut s = String::new();
-    for (v, val) in &a.vars {
-        let _ = write!(s, ", {} = {}", v, rust_str(val));
-    }
+fn args_view_backend(k: &KeyPlan, a: &Assign, crossed: Option<&BTreeMap<String, String>>) -> String {
+    let mut s = plain_var_args(a, crossed);
     for (v, val) in &a.fvars {
         let _ = write!(s, ", {} = move || {}", v, val.rust());
     }
@@ -171,8 +203,16 @@ pub fn key_fn(k: &KeyPlan, nlocales: usize, opts: &PlanOpts) -> String {
     let _ = writeln!(s, "fn key_{}() {{", k.idx);
     let _ = writeln!(s, "    for li in 0..{} {{ let l = loc(li);", nlocales);
     for (ai, a) in k.assigns.iter().enumerate() {
-        let sargs = args_string_backend(k, a);
-        let vargs = args_view_backend(k, a);
+        // argument expressions that mention other arguments' names: the string back-end on odd assignments,
+        // the display back-end on even ones, the view on its single assignment; the other calls stay plain
+        let cross = crossed_locals(a);
+        let cx = cross.as_ref().map(|c| &c.1);
+        let lets = cross.as_ref().map(|c| c.0.as_str()).unwrap_or("");
+        let sargs = args_string_backend(k, a, None);
+        let sargs_x = args_string_backend(k, a, cx);
+        let vargs = args_view_backend(k, a, cx);
+        let (s_lets, sargs_s) = if ai % 2 == 1 { (lets, &sargs_x) } else { ("", &sargs) };
+        let (d_lets, sargs_d) = if ai % 2 == 0 { (lets, &sargs_x) } else { ("", &sargs) };
         let decimals = matches!(&a.loop_var, Some((_, CountKind::Plural, pr)) if pr.iter().any(|n| matches!(n, Num::Float(_))));
         let looped = match &a.loop_var {
             Some((_, kind, probes)) => {
@@ -193,15 +233,15 @@ pub fn key_fn(k: &KeyPlan, nlocales: usize, opts: &PlanOpts) -> String {
             }
         };
         if opts.string_backend && opts.async_strings {
-            let _ = writeln!(s, "            emit({}, li, {}, ci, 'S', &futures::executor::block_on(td_string!(l, {}{})).to_string());", k.idx, ai, path, sargs);
+            let _ = writeln!(s, "            {{ {}emit({}, li, {}, ci, 'S', &futures::executor::block_on(td_string!(l, {}{})).to_string()); }}", s_lets, k.idx, ai, path, sargs_s);
         } else if opts.string_backend {
-            let _ = writeln!(s, "            emit({}, li, {}, ci, 'S', &td_string!(l, {}{}).to_string());", k.idx, ai, path, sargs);
+            let _ = writeln!(s, "            {{ {}emit({}, li, {}, ci, 'S', &td_string!(l, {}{}).to_string()); }}", s_lets, k.idx, ai, path, sargs_s);
         }
         if opts.display_backend {
-            let _ = writeln!(s, "            emit({}, li, {}, ci, 'D', &format!(\"{{}}\", td_display!(l, {}{})));", k.idx, ai, path, sargs);
+            let _ = writeln!(s, "            {{ {}emit({}, li, {}, ci, 'D', &format!(\"{{}}\", td_display!(l, {}{}))); }}", d_lets, k.idx, ai, path, sargs_d);
         }
         if opts.view_backend && ai == 0 && !decimals {
-            let _ = writeln!(s, "            emit({}, li, {}, ci, 'V', &html(td!(l, {}{})));", k.idx, ai, path, vargs);
+            let _ = writeln!(s, "            {{ {}emit({}, li, {}, ci, 'V', &html(td!(l, {}{}))); }}", lets, k.idx, ai, path, vargs);
         }
         let _ = writeln!(s, "{}", if looped { "        } }" } else { "        }" });
     }
